@@ -201,6 +201,46 @@ def sliced_part(chk, thorough):
             chk.violation(f'sliced:{what}:{form}', f'[{cfg}] {got} != builder form {ref}', ctx)
 
 
+def fusing_part(chk):
+  """The same operators as a chain of named stages and fused under one name (chain() of two transforms with the same
+  name): an aggregating stage followed by an apply stage, and two aggregating stages of which one is sliced.  Fusing
+  either gives the chained result or is refused when the pipeline is built."""
+  from ml_metrics._src.chainables import io, transform
+
+  def agg_then_apply(n1, n2):
+    a = transform.TreeTransform.new(name=n1).data_source(io.SequenceDataSource([1, 2, 3, 4])).aggregate(fn=lib.Collect(), output_keys='s')
+    b = transform.TreeTransform.new(name=n2).apply(fn=lib.add100)
+    return a.chain(b)
+
+  def two_aggs(n1, n2):
+    rows = [{'x': [i % 2], 'y': [i]} for i in range(4)]
+    a = (transform.TreeTransform.new(name=n1).data_source(io.SequenceDataSource(rows))
+         .aggregate(fn=lib.CollectRows(), input_keys='y', output_keys='s1').add_slice('x'))
+    b = transform.TreeTransform.new(name=n2).aggregate(fn=lib.CollectRows(), input_keys='y', output_keys='s2')
+    return a.chain(b)
+
+  def result(p):
+    it = p.make().iterate()
+    outs = [repr(x) for x in it]
+    return outs, sorted((repr(k), repr(v)) for k, v in dict(it.agg_result or {}).items())
+
+  for name, mk in (('aggregate-then-apply', agg_then_apply), ('two-aggregates-one-sliced', two_aggs)):
+    ref = result(mk('a', 'b'))
+    ctx = dict(kind='exec-strategy-fusing', pipeline=name)
+    chk.replayed()
+    try:
+      fused = mk('p', 'p')
+    except (ValueError, KeyError, TypeError):
+      continue          # refused at build time: loud
+    try:
+      got = result(fused)
+    except Exception as e:  # pylint: disable=broad-exception-caught
+      chk.violation(f'fusing:{name}:raised:{type(e).__name__}', f'{e!r}', ctx)
+      continue
+    if got != ref:
+      chk.violation(f'fusing:{name}:result-differs', f'fused under one name: outputs / aggregate {got}; as a chain of two named stages: {ref}', ctx)
+
+
 def rebatching_part(chk, thorough):
   """A re-batching operator (batch(k)) under worker threads and shards: the rows are those of the sequential run under
   every strategy; the property also asks for the same multiset of emitted BATCHES."""
@@ -240,6 +280,7 @@ def rebatching_part(chk, thorough):
 def body(chk):
   thorough = chk.tier == 'thorough'
   rebatching_part(chk, thorough)
+  fusing_part(chk)
   # 1. design level
   for n, shards, threads, prog in ([(4, 2, 2, 'mapfilter'), (3, 1, 3, 'map'), (5, 3, 1, 'filter'), (2, 3, 2, 'map')] +
                                    ([(6, 2, 2, 'mapfilter'), (5, 2, 3, 'filter')] if thorough else [])):
